@@ -115,7 +115,15 @@ class UnitTimeout(BaseException):
     pass
 
 
-UNIT_TIMEOUT = float(os.environ.get("VERIF_UNIT_TIMEOUT", "600"))
+def _unit_timeout():
+    """seconds one chunk of work may take before it is reported as non-terminating: generous in the quick tier (chunks take
+    seconds), and long enough in the thorough tier for the largest single exploration unit even on a loaded machine"""
+    if os.environ.get("VERIF_UNIT_TIMEOUT"):
+        return float(os.environ["VERIF_UNIT_TIMEOUT"])
+    return 900.0 if os.environ.get("VERIF_TIER", "quick") == "quick" else 4 * 3600.0
+
+
+UNIT_TIMEOUT = 900.0
 
 
 def _alarm(_sig, _frm):
@@ -130,7 +138,8 @@ def _run_chunk(chunk):
     old = None
     try:
         old = signal.signal(signal.SIGALRM, _alarm)
-        signal.setitimer(signal.ITIMER_REAL, UNIT_TIMEOUT)
+        limit = _unit_timeout()
+        signal.setitimer(signal.ITIMER_REAL, limit)
     except (ValueError, OSError):  # not the main thread
         old = None
     try:
@@ -144,8 +153,8 @@ def _run_chunk(chunk):
         except Exception:  # noqa
             blob = ""
         return ("ok", {"cov": {"violating_cases": 1}, "outcomes": [], "samples": [], "known": {}, "viol": [{
-            "kind": "harness:timeout", "work": f"{_WORK.__module__}:{_WORK.__name__}", "units": short(repr(chunk), 400), "units_pickle_b64": blob, "limit_s": UNIT_TIMEOUT,
-            "why": f"the implementation did not return within {UNIT_TIMEOUT:.0f} s on these cases (each takes well under a second on the pinned tree): it does not terminate"}]})  # fmt: skip
+            "kind": "harness:timeout", "work": f"{_WORK.__module__}:{_WORK.__name__}", "units": short(repr(chunk), 400), "units_pickle_b64": blob, "limit_s": limit,
+            "why": f"the implementation did not return within {limit:.0f} s on these cases (each takes well under a second on the pinned tree): it does not terminate"}]})  # fmt: skip
     except BaseException:  # noqa
         return ("err", traceback.format_exc())
     finally:
